@@ -112,27 +112,32 @@ def _has_wild(s):
     return '*' in s or '?' in s
 
 
-def build(pos, s):
+def build(pos, s, lean=False):
     """-> {'titles': [...], 'consts': [(sheet, col, row, value)], 'formulas': [(sheet, col, row, text, expected)],
            'cprobes': [(sheet, col, row, expected)], 'entry': (sheet, col, row) | None}   (col letters, row 1-based)"""
     e = _esc(s)
     if pos == 'const':
         other = s[::-1] + 'q'
-        return {'titles': ['S', 'T2'], 'consts': [(0, 'A', 1, s), (0, 'A', 2, 'x'), (1, 'A', 1, other)],
-                'formulas': [(0, 'B', 1, '=A1', s), (0, 'C', 1, '=A1&""', s), (0, 'D', 1, '=CONCATENATE(A1,"")', s),
-                             (1, 'B', 1, '=A1', other), (1, 'C', 1, '=S!A1', s), (0, 'E', 1, '=COUNTIFS(A1:A2,A1)', NOEXP)],
+        fs = [(0, 'B', 1, '=A1', s), (0, 'C', 1, '=A1&""', s), (1, 'B', 1, '=A1', other), (1, 'C', 1, '=S!A1', s)]
+        if not lean:
+            fs += [(0, 'D', 1, '=CONCATENATE(A1,"")', s), (0, 'E', 1, '=COUNTIFS(A1:A2,A1)', NOEXP)]
+        return {'titles': ['S', 'T2'], 'consts': [(0, 'A', 1, s), (0, 'A', 2, 'x'), (1, 'A', 1, other)], 'formulas': fs,
                 'cprobes': [(0, 'A', 1, s), (1, 'A', 1, other)], 'entry': (1, 'C', 1)}
     if pos == 'plain':
-        fs = [(0, 'A', 1, f'="{e}"', s), (0, 'A', 2, f'=IF(1=1,"{e}","x")', s), (0, 'A', 3, f'="{e}"&""', s),
-              (0, 'A', 4, f'=CONCATENATE("{e}","")', s), (1, 'A', 1, f'="{e}"', s), (1, 'A', 2, '=S!A1', s)]
-        if s:
-            fs.append((0, 'A', 5, f'=LEFT("{e}",99999)', s))
-        return {'titles': ['S', 'T2'], 'consts': [], 'formulas': fs, 'cprobes': [], 'entry': (1, 'A', 2), 'deps': {5: [0]}}
+        fs = [(0, 'A', 1, f'="{e}"', s), (1, 'A', 2, '=S!A1', s), (0, 'A', 2, f'=IF(1=1,"{e}","x")', s), (0, 'A', 3, f'="{e}"&""', s),
+              (1, 'A', 1, f'="{e}"', s)]
+        if not lean:
+            fs.append((0, 'A', 4, f'=CONCATENATE("{e}","")', s))
+            if s:
+                fs.append((0, 'A', 5, f'=LEFT("{e}",99999)', s))
+        return {'titles': ['S', 'T2'], 'consts': [], 'formulas': fs, 'cprobes': [], 'entry': (1, 'A', 2), 'deps': {1: [0]}}
     if pos in ('crit', 'wild'):
         consts = [(0, 'A', 1, 'abc'), (0, 'A', 2, 'x'), (0, 'A', 3, 3), (0, 'B', 1, 1), (0, 'B', 2, 2), (0, 'B', 3, 4)]
         if pos == 'crit':
             lits = [('COUNTIFS(A1:A3,"%s")', e), ('SUMIF(A1:A3,"%s",B1:B3)', '<>' + e), ('SUMIFS(B1:B3,A1:A3,"%s")', '>=' + e),
-                    ('COUNTIFS(A1:A3,"<>"&"%s")', e), ('AVERAGEIFS(B1:B3,A1:A3,"%s")', '=' + e), ('SUMIF(A1:A3,"%s")', e)]
+                    ('COUNTIFS(A1:A3,"<>"&"%s")', e)]
+            if not lean:
+                lits += [('AVERAGEIFS(B1:B3,A1:A3,"%s")', '=' + e), ('SUMIF(A1:A3,"%s")', e)]
         else:
             lits = [('COUNTIFS(A1:A3,"%s")', e + '*'), ('COUNTIFS(A1:A3,"%s")', '*' + e), ('SUMIF(A1:A3,"%s",B1:B3)', '?' + e),
                     ('COUNTIFS(A1:A3,"%s")', '~*' + e + '*'), ('SUMIFS(B1:B3,A1:A3,"%s")', e + '?')]
@@ -414,7 +419,7 @@ def _twin_skeleton(pos, s, route, tmpdir, entry, only):
     if key not in _TWIN_CACHE:
         if len(_TWIN_CACHE) > 20000:
             _TWIN_CACHE.clear()
-        shape = build(pos, tw)
+        shape = build(pos, tw, route == 'mem')
         t, _ = _translate(shape, route, tmpdir, False, entry, only)
         sk = None
         if not isinstance(t, codec.Raised):
@@ -428,7 +433,7 @@ def _twin_skeleton(pos, s, route, tmpdir, entry, only):
 
 def _one(pos, s, route, tmpdir, safety, entry, only):
     """-> ('rejected', cls) | ('ok', symptoms, checked)"""
-    shape = build(pos, s)
+    shape = build(pos, s, route == 'mem')
     t, fired = _translate(shape, route, tmpdir, safety, entry, only)
     if isinstance(t, codec.Raised):
         if fired:
@@ -475,7 +480,7 @@ def item(pos, s, route, tmpdir, safety=False, entry=False, known=None):
         res['evaluations'] += r[2]
         res['accepted'] = 1
         return res
-    nform = len(build(pos, s)['formulas'])
+    nform = len(build(pos, s, route == 'mem')['formulas'])
     top = next((m for m in SYMPTOMS if r[0] == 'ok' and m in r[1]), None)
     if entry or nform <= 1 or (known is not None and top is not None and known.get(_key(pos, s, top), 0) >= 3):
         todo = [(None, r)]                                              # this root cause has minimal witnesses already
@@ -491,14 +496,15 @@ def item(pos, s, route, tmpdir, safety=False, entry=False, known=None):
         res['evaluations'] += rr[2]
         for symptom in SYMPTOMS:
             if symptom in rr[1]:
-                shape = build(pos, s)
+                shape = build(pos, s, route == 'mem')
                 fs = shape['formulas'] if only is None else [shape['formulas'][only]]
                 shown = fs[-1][3] if (only is not None or pos in ('ftext',)) else None
                 subject = _subject(pos, s, shown)
                 res['fails'].append((_key(pos, s, symptom),
                                      f'{subject} [{route}, safety {"on" if safety else "off"}, '
                                      f'{"entry point" if entry else "whole file"}] -> {symptom}: {rr[1][symptom]}',
-                                     {'kind': 'item', 'pos': pos, 'text': s, 'safety': safety, 'entry': entry, 'only': only}))
+                                     {'kind': 'item', 'pos': pos, 'text': s, 'safety': safety, 'entry': entry, 'only': only,
+                                      'formula': shown if only is not None else None}))
                 break                                                   # the gravest symptom names the failure
     return res
 
@@ -603,30 +609,36 @@ def sweep_alphabet(tier, seed):
     strings = _alphabet_strings(maxlen)
     rng = random.Random(seed)
     extra = _random_strings(rng, 3000 if tier == 'thorough' else 300, 5, 12)
+    longest = [x for x in strings if len(x) == maxlen]
+    crit_sample = rng.sample(longest, 8000 if tier == 'thorough' else 600)
     checks = []
     for pos, what in (('const', 'constants'), ('plain', 'plain_literals'), ('crit', 'criterion_literals'), ('title', 'titles')):
         t0 = time.time()
-        its = [(pos, s, False, False) for s in strings + extra]
-        its += [(pos, s, False, True) for s in strings if len(s) <= 2] + [(pos, s, False, True) for s in extra[:100]]
+        mine = strings if pos != 'crit' else [x for x in strings if len(x) < maxlen] + crit_sample
+        its = [(pos, x, False, False) for x in mine + extra]
+        its += [(pos, x, False, True) for x in strings if len(x) <= 2] + [(pos, x, False, True) for x in extra[:100]]
         results = _run_jobs(_chunks('mem', its, 150 if tier == 'quick' else 400))
         total = {'evaluations': 0, 'accepted': 0, 'rejected': 0, 'fails': []}
         for r in results:
             _merge(total, r)
         fails = _confirm(total['fails'])
+        scope = (f'every string of length 1..{maxlen} over {len(ALPHABET)} symbols ' + repr(''.join(ALPHABET)) + f' ({len(strings)} strings)'
+                 if pos != 'crit' else
+                 f'every string of length 1..{maxlen - 1} over {len(ALPHABET)} symbols ' + repr(''.join(ALPHABET)) +
+                 f' ({len(mine) - len(crit_sample)} strings), a seeded sample of {len(crit_sample)} of the {len(longest)} strings of length {maxlen}')
         checks.append(_check_entry(
             f'C07.monitor.alphabet.{what}',
-            f'every string of length 1..{maxlen} over {len(ALPHABET)} symbols ' + repr(''.join(ALPHABET)) + f' ({len(strings)} strings) plus '
-            f'{len(extra)} seeded random strings of 5..12 fragments (quotes, braces, {{titles}}, %s, call syntax, operators), as '
-            + {'const': 'constant cell read directly, through =A1, =A1&"", CONCATENATE, COUNTIFS/IF arguments, from a second sheet with '
-                        'the same unqualified formula, and through an entry-point translation',
-               'plain': 'string literal in ="s", IF, &, CONCATENATE, LEFT, the same formula on two sheets, a cross-sheet reference '
-                        '(" spelled "" as Excel does); strings with * or ? included',
-               'crit': 'criterion literal "s", "<>s", ">=s", "=s", "<>"&"s" of COUNTIFS / SUMIF / SUMIFS / AVERAGEIFS (wildcards included)',
+            scope + f' plus {len(extra)} seeded random strings of 5..12 fragments (quotes, braces, {{titles}}, %s, call syntax, operators), as '
+            + {'const': 'constant cell read directly, through =A1, =A1&"", from a second sheet with the same unqualified formula =A1, through '
+                        '=S!A1 and through an entry-point translation',
+               'plain': 'string literal in ="s", IF, &, the same formula on two sheets, a cross-sheet reference (" spelled "" as Excel does); '
+                        'strings with * or ? included',
+               'crit': 'criterion literal "s", "<>s", ">=s", "<>"&"s" of COUNTIFS / SUMIF / SUMIFS (wildcards included)',
                'title': 'title of the first sheet (strings with \\ * ? skipped: not legal titles), together with {titles} / {sheets_size} '
                         "constants and a quoted reference 's'!A1"}[pos]
             + '; whole-file translation for all, entry-point translation for lengths <= 2 and 100 random strings; Excel object built in '
               'memory, every reported failure replayed through an xlsx file and the public Parser/Executor',
-            RULE, True, total, fails, [{'text': s, 'position': pos} for s in (strings[5], strings[-1], extra[0])], t0))
+            RULE, True, total, fails, [{'text': x, 'position': pos} for x in (strings[5], strings[-1], extra[0])], t0))
     return checks
 
 
